@@ -35,6 +35,7 @@ func runC18(c *Ctx) {
 	r.Doc("U4", "suitable => non-fatal (same test first); limit only in diff > limit => false", 2)
 	r.Doc("U5", "PickUpMin: 1..max upward; PickUpMax: max..1 downward; loop variable under the predicate, 0 after", 8)
 	r.Doc("U6", "(= D8) v2 constructor applies the same test to the full set", 1)
+	r.Doc("U7", "combination generator: for every priority in list order, every existing combination is extended by a fresh copy plus the singleton (step m -> 2m+1); extension copies, never aliases", 2)
 	for _, spec := range []struct {
 		p   *Prog
 		rel string
@@ -163,6 +164,8 @@ func c18prog(c *Ctx, p *Prog, rel string) {
 			checkU5(c, p, fn, predCalls)
 		}
 	}
+	// ---- U7 generator shape (necessary structure for the 2^n-1 enumeration)
+	checkU7(c, p, gen)
 	// ---- U2/U3/U4 per predicate
 	for _, fn := range preds {
 		checkU23(c, p, fn)
@@ -462,4 +465,99 @@ func checkU23(c *Ctx, p *Prog, fn *ssa.Function) {
 		c.R.Check(len(p4) == 0, "U4", p.FnKey(fn), p.Pos(fn.Pos()), "zero-share test first; limit only as diff > limit => false", strings.Join(dedup(p4), "; "))
 		c.R.Funcs[p.FnKey(tol)] = true
 	}
+}
+
+// checkU7: structural necessary conditions of the subset generator.
+func checkU7(c *Ctx, p *Prog, gen *ssa.Function) {
+	var problems []string
+	prios := gen.Params[0]
+	comps := sccs(gen.Blocks, blockSet(gen.Blocks))
+	// outer loop over the priorities with an inner loop over the combinations collected so far
+	if len(comps) != 1 {
+		problems = append(problems, fmt.Sprintf("expected one loop nest, found %d", len(comps)))
+	}
+	var adder *ssa.Function
+	extendCalls, singleCalls := 0, 0
+	for _, b := range gen.Blocks {
+		for _, in := range b.Instrs {
+			call, ok := in.(*ssa.Call)
+			if !ok {
+				continue
+			}
+			cal := p.Callee(call)
+			if cal == nil || !p.IsProduct(cal) || len(call.Call.Args) != 2 {
+				continue
+			}
+			// second argument: the priority being visited in the outer loop
+			if base, okr := rangeElem(p.Sym(call.Call.Args[1])); !okr || base.V != ssa.Value(prios) {
+				continue
+			}
+			adder = cal
+			if isNilConst(call.Call.Args[0]) {
+				singleCalls++
+				if !blockInLoop(call.Block()) {
+					problems = append(problems, "the singleton combination is added outside the loop over the priorities")
+				}
+			} else {
+				extendCalls++
+			}
+			// the result is appended to the collection
+			appended := false
+			for _, ref := range *call.Referrers() {
+				if st, isSt := ref.(*ssa.Store); isSt {
+					if al, isAl := baseOf(st.Addr).(*ssa.Alloc); isAl && al.Comment == "varargs" {
+						appended = true
+					}
+				}
+			}
+			if !appended {
+				problems = append(problems, "a generated combination at "+p.InstrPos(call)+" is not appended to the result")
+			}
+		}
+	}
+	if extendCalls != 1 || singleCalls != 1 {
+		problems = append(problems, fmt.Sprintf("expected one extension of every existing combination and one singleton per priority, found %d and %d", extendCalls, singleCalls))
+	}
+	c.R.Check(len(problems) == 0, "U7", p.FnKey(gen), p.Pos(gen.Pos()), "per priority: extend every existing combination + singleton", strings.Join(dedup(problems), "; "))
+	if adder == nil {
+		return
+	}
+	c.R.Funcs[p.FnKey(adder)] = true
+	// the adder returns a fresh slice: make(len(c)+1), copy(c), last = priority
+	var ap []string
+	fresh := false
+	for _, s := range p.resultSyms(adder, 0) {
+		if ms, ok := s.V.(*ssa.MakeSlice); ok {
+			l := deepStrip(p.Sym(ms.Len))
+			if l.Op == "bin" && l.Name == "+" && strings.Contains(l.String(), "len(") && strings.Contains(l.String(), "1") {
+				fresh = true
+			} else {
+				ap = append(ap, "the new combination has length "+l.String()+", not len(combination)+1")
+			}
+		} else {
+			ap = append(ap, "the extended combination is "+s.String()+", not a freshly made slice: combinations share memory and later extensions overwrite earlier ones")
+		}
+	}
+	copied, lastSet := false, false
+	for _, b := range adder.Blocks {
+		for _, in := range b.Instrs {
+			if call, ok := in.(*ssa.Call); ok {
+				if bi, isB := call.Call.Value.(*ssa.Builtin); isB && bi.Name() == "copy" && call.Call.Args[1] == ssa.Value(adder.Params[0]) {
+					copied = true
+				}
+			}
+			if st, ok := in.(*ssa.Store); ok {
+				if ia, isIA := st.Addr.(*ssa.IndexAddr); isIA && st.Val == ssa.Value(adder.Params[1]) {
+					idx := deepStrip(p.Sym(ia.Index))
+					if idx.Op == "bin" && idx.Name == "-" && strings.Contains(idx.String(), "len(") {
+						lastSet = true
+					}
+				}
+			}
+		}
+	}
+	if !fresh || !copied || !lastSet {
+		ap = append(ap, fmt.Sprintf("shape not recognised (fresh=%v copies=%v appends-last=%v)", fresh, copied, lastSet))
+	}
+	c.R.Check(len(ap) == 0, "U7", p.FnKey(adder), p.Pos(adder.Pos()), "fresh copy with the priority appended last", strings.Join(dedup(ap), "; "))
 }
